@@ -167,6 +167,7 @@ structure Stack where
   watchAll : List LId := []
   found : TStore SvcKey := []
   storeLog : List (Bool × SvcKey × Addr) := []   -- ghost: every store-level notification (true = offered) in order
+  refreshLog : List (Addr × SvcKey × Nat × Nat) := []   -- ghost: (source, service, time, ttl) of every TimedStore.refresh of found_services
   sendLog : List (Dest × (Bool × Nat)) := []     -- ghost: every (destination, (reboot flag, session id)) send_sd drew from the session storage
   flushLog : List (Dest × List SDEntry) := []    -- ghost: every batch of queued entries handed to send_sd (zero timeout: singletons; else a closed window)
   findTask : Option Nat := none
@@ -594,7 +595,8 @@ def foundRefresh (s : Stack) (ttl : Nat) (a : Addr) (k : SvcKey) : Stack :=
     | none => (({ s with found }).notifyService true k a, found.get a)
   let r := p.1.armTtl ttl (.expiredSvc a k)
   -- the store is re-read: a listener callback may have touched it (AutoSubscribe does not)
-  { r.1 with found := (r.1.found.touch a).set a (p.2 ++ [⟨k, r.2⟩]) }
+  { r.1 with found := (r.1.found.touch a).set a (p.2 ++ [⟨k, r.2⟩]),
+             refreshLog := r.1.refreshLog ++ [(a, k, s.loop.now, ttl)] }
 
 /-- `ServiceDiscover.handle_offer(entry, addr)` -/
 def handleOffer (s : Stack) (e : SDEntry) (a : Addr) : Stack :=
